@@ -9,7 +9,7 @@ C (barycentre), and derives in exact rationals what every dependent literal tabl
 import ast
 from fractions import Fraction as F
 
-from .core import AnalysisError
+from .core import AnalysisError, TableWrong
 from .src import unparse
 
 GRID = "bempp_cl/api/grid/grid.py"
@@ -160,7 +160,11 @@ def barycentric_table(ctx):
         if not (isinstance(r, ast.Constant) and r.value in (0, 1, 2)):
             raise AnalysisError("barycentric connectivity: non-literal row in %s" % unparse(t))
         a, j = linear(t.slice.elts[1], idx)
-        if a != 6 or not 0 <= j < 6:
+        if a == 6 and not 0 <= j < 6:
+            # a column of another element's six sub-triangles (or a negative column) is written while element `index` is refined
+            raise TableWrong(GRID, fn.name, st.lineno, "barycentric slot " + unparse(t.slice.elts[1]),
+                             "`%s` writes column %s: the six sub-triangles of element `%s` are the columns 6*%s + 0..5" % (unparse(t)[:60], unparse(t.slice.elts[1]), idx, idx))
+        if a != 6:
             raise AnalysisError("barycentric connectivity: sub-triangle slot %s is not 6*index + j" % unparse(t.slice.elts[1]))
         v = st.value
         if isinstance(v, ast.Name) and v.id == mid_name:
@@ -173,10 +177,12 @@ def barycentric_table(ctx):
         else:
             raise AnalysisError("barycentric connectivity: unrecognised vertex expression %s" % unparse(v))
         if (j, r.value) in table:
-            raise AnalysisError("barycentric connectivity: slot (%d,%d) assigned twice" % (j, r.value))
+            raise TableWrong(GRID, fn.name, st.lineno, "barycentric slot (%d, %d)" % (j, r.value),
+                             "corner %d of sub-triangle %d is assigned twice (lines %d and %d), so another of the 18 slots of the np.empty table is never written" % (r.value, j, table[(j, r.value)][1], st.lineno))
         table[(j, r.value)] = (sym, st.lineno)
     if len(table) != 18:
-        raise AnalysisError("barycentric connectivity: %d of 18 slots assigned" % len(table))
+        raise TableWrong(GRID, fn.name, loop.lineno, "barycentric slots", "only %d of the 18 (sub-triangle, corner) slots of an element are assigned; missing: %s" % (
+            len(table), sorted(set((j, r) for j in range(6) for r in range(3)) - set(table))[:6]))
     B = [[table[(j, r)][0] for r in range(3)] for j in range(6)]
     return B, fn.lineno
 
@@ -219,10 +225,10 @@ def refine_table(ctx):
                 raise AnalysisError("Grid.refine: child vertex `%s` is neither a parent vertex nor an edge-midpoint vertex" % unparse(e))
             tri.append(names[ce])
         if slot[0] in children:
-            raise AnalysisError("Grid.refine: child %d stored twice" % slot[0])
+            raise TableWrong(GRID, "Grid.refine", ln, "refine child %d" % slot[0], "child %d of an element is stored twice: another of its four children is never written" % slot[0])
         children[slot[0]] = tri
     if sorted(children) != [0, 1, 2, 3]:
-        raise AnalysisError("Grid.refine: children %s" % sorted(children))
+        raise TableWrong(GRID, "Grid.refine", loop.lineno, "refine children", "only the children %s of the four children 4*index + 0..3 are stored" % sorted(children))
     ln = rets[0].lineno
     vs = {(s.target, s.value) for s in S if isinstance(s.tnode, ast.Subscript) and unparse(s.tnode.value) == V and not s.guards and not s.loops}
     old = (roles.expect("V[:, :self.number_of_vertices]", defs, ln, V=V), roles.expect("self.vertices", defs, ln))
